@@ -552,7 +552,7 @@ class Prop(PropBase):
         d, f = F(day), F(frac)
         if d.denominator != 1:
             return f"{what}: count {float(d)} is not an integer"
-        if abs(f) > F(1, 2):
+        if abs(f) > F(1, 2) and abs(exact) <= TWO52:       # (beyond 2^52 cycles a double count cannot always absorb the carry: out of the stated range)
             return f"{what}: fraction {float(f)} outside [-1/2, 1/2]"
         if abs(exact) <= TWO52 and abs(d + f - exact) > EPS:
             return f"{what}: count+frac differs from the exact value by {float(abs(d + f - exact)):.3g} cycles (> 2^-52)"
